@@ -37,7 +37,10 @@ PROP = {'drive': ['Shape'],
          'whose cmap or a GSUB 1.1 substitution delivers glyph IDs 1, NumGlyphs/2, NumGlyphs-1, NumGlyphs, +1, +2, '
          '0xFFFF (28; D shape.layout: no panic, text kept, advance = width inside the font and 0 beyond it), histories of 2-4 texts on ONE sfnt.Layouter whose GPOS '
          'writes placement offsets (GPOS 1.1 / 1.2 with XPlacement/YPlacement/XAdvance, GPOS 4.1 mark attachment; CFF '
-         'and glyf fonts: 36; D shape.layoutseq: every result, all fields, equals that of a fresh Layouter)',
+         'and glyf fonts: 36; D shape.layoutseq: every result, all fields, equals that of a fresh Layouter), contextual rules without ignore flags whose '
+         'input contains marks, first nested action a ligature WITH IgnoreMarks of 3-4 components so that stored input '
+         'positions lie between merged components, second action at every index of the post-merge match and beyond, '
+         'texts with and without trailing glyphs and repeated (6 formats x 4 patterns x 4-5 indices)',
  'partial': ['C07_no_panic is proved in full for every lookup list in the shape the reader delivers, and that shape is '
              'proved for the images of the modelled subtable readers (C07_reader_delivers_shape, C07_no_panic_reader) '
              '(readerShapedLL = coverage indices inside the indexed arrays, context format 3 and chained context '
